@@ -594,15 +594,23 @@ def _backends(ctx, ev, rep):
                 good = o[0] == "cast" and o[1] == ("param", 2, ())
             rep.check(good, "R3.9", "R3.9|stdin|length", "stdin back-end reads and discards exactly `offset` bytes", d,
                       "stdin skip buffer length is not the requested offset")
-            kinds = set()
-            for i, j, st in b.stmts():
-                if st["k"] == "assign" and st["rv"]["k"] == "agg" and (st["rv"].get("adt") or "").endswith("io::error::ErrorKind"):
-                    kinds.add(st["rv"]["vname"])
-            for bb in b.blocks:
-                for st in bb["s"]:
-                    pass
-            tbx = ev.tb(d)
-            txt = " ".join(n.get("vname", "") for i, n in tbx.walk() if n["k"] == "Adt") if tbx else ""
+            # decided on the three outcomes of the read: Ok stays Ok, UnexpectedEof becomes InvalidInput, any other
+            # error is passed on unchanged
+            EK = "std::io::error::ErrorKind"
+            outc = {}
+            for case, (res_, kind_) in {"ok": (Agg("core::result::Result", "Ok", {"0": ()}), None),
+                                        "eof": (Agg("core::result::Result", "Err", {"0": Sym("E")}), "UnexpectedEof"),
+                                        "other": (Agg("core::result::Result", "Err", {"0": Sym("E")}), "PermissionDenied")}.items():
+                ev.call_hooks = [(lambda fn, r_: fn.endswith("::read_exact"), lambda n, a, res_=res_: res_),
+                                 (lambda fn, r_: fn.endswith("io::error::Error::kind"), lambda n, a, kind_=kind_: Agg(EK, kind_, {}))]
+                try:
+                    outc[case] = vkey(ev.call_fn(d, [Sym("self"), Sym("OFFSET")]))
+                except Unsupported as e:
+                    outc[case] = "unevaluable %s" % e
+                finally:
+                    ev.call_hooks = []
+            txt = "InvalidInput UnexpectedEof" if (outc["ok"] == "Result::Ok(0=())" and outc["eof"].startswith("Result::Err(") and "ErrorKind::InvalidInput" in outc["eof"]
+                                                   and outc["other"] == "Result::Err(0=sym(E))") else "outcomes: %s" % {k_: v_[:80] for k_, v_ in outc.items()}
             rep.check("InvalidInput" in txt and "UnexpectedEof" in txt, "R3.9", "R3.9|stdin|eof_kind",
                       "short read while skipping on stdin is mapped UnexpectedEof → InvalidInput (reported as E101, batch not aborted)", d)
         else:
